@@ -278,6 +278,10 @@ def check(repo, tier):
     if not ok:
         run.add(F_(f'{MOD}._generator', 'D1', 'generator of one function', f'returned {got}, expected b.grad f + 1/2 a:hess f'))
     # ---------------------------------------------------------------- D2 reduced matrix
+    # (the rule calls the private routine directly: it knows the interface  (u, s_inv, V, ranks, x, basis_list, sigma, b, reweight, ...)  only)
+    rm_fn = repo.fn(f'{MOD}._reduced_matrix_tgedmd')
+    if list(rm_fn.params)[:9] != ['u', 's_inv', 'V', 'ranks', 'x', 'basis_list', 'sigma', 'b', 'reweight']:
+        raise AnalysisError(f'_reduced_matrix_tgedmd has the parameters {list(rm_fn.params)}: the rules D2 / D3 know the interface (u, s_inv, V, ranks, x, basis_list, sigma, b, reweight) only')
     for p, m, rev, rew in itertools.product(ps if tier == 'thorough' else (2, 3), (1, 2), (False, True), (False, True)):
         if tier == 'quick' and ((p == 3 and m == 2) or (p == 2 and m == 1 and not rew)):
             continue
